@@ -40,7 +40,7 @@ def verdicts(ctx, imports, fn, name='verdicts', extra=''):
     if not m:
         ctx.oblige('evaluation of %s on the regenerated programs' % fn, False, out[-3000:])
         return None
-    return {a: b == 'true' for a, b in re.findall(r'\("(\w+)"\s*,\s*(true|false)\)', m.group(1))}
+    return {a: b == 'true' for a, b in re.findall(r'\(\s*"(\w+)"(?:%string)?\s*,\s*(true|false)\s*\)', m.group(1))}
 
 
 def alarms(ctx, imports, expr, name='alarms'):
@@ -55,7 +55,7 @@ def alarms(ctx, imports, expr, name='alarms'):
     if not ok:
         return res
     for m in re.finditer(r'@@A (\w+)(.*?)@@E', out, re.S):
-        res[m.group(1)] = [(int(a), ' '.join(b.split())) for a, b in re.findall(r'\((\d+)\s*,\s*"([^"]*)"\)', m.group(2))]
+        res[m.group(1)] = [(int(a), ' '.join(b.split())) for a, b in re.findall(r'\(\s*(\d+)\s*,\s*"([^"]*)"\s*\)', m.group(2))]
     return res
 
 
@@ -67,32 +67,82 @@ def loc_text(meta, opt, loc):
 
 
 def monitor(ctx, focus=None):
-    """Run (or reuse) the run monitor; report its records for this property.  -> number of records"""
+    """Run (or reuse) the run monitor S-run on the real implementation and report its records for this property.
+    -> (number of new violations, number of known findings re-confirmed)"""
     try:
         from props import _srun
     except Exception as ex:  # noqa: BLE001
         ctx.oblige('run monitor S-run available', False, repr(ex))
-        return 0
-    return _srun.run_and_report(ctx, focus=focus)
+        return 0, 0
+    data = _srun.monitor(ctx, ctx.pid, focus=focus)
+    _srun.fill_coverage(ctx, ctx.pid, data)
+    nv, nk = _srun.report_all(ctx, ctx.pid, data['records'])
+    if focus is None:
+        stale = _srun.stale_known(ctx, ctx.pid, data['records'])
+        if stale:
+            import sys
+            sys.stderr.write('[%s] known findings not re-confirmed by this run (stale?): %s\n' % (ctx.pid, stale))
+            ctx.cov['stale_known_findings'] = stale
+    return nv, nk
 
 
-def check_programs(ctx, meta, imports, fn, alarm_expr, what, theorem, focus_key):
-    """Obligation per optimizer `fn prog_X = true`; failures are handed to the run monitor for a concrete input."""
-    vd = verdicts(ctx, imports, fn)
+def replay(ctx, path):
+    from props import _srun
+    return _srun.replay(ctx, path)
+
+
+def norm_loc(text):
+    """'opytimizer/optimizers/wca.py:247: self._raining_process(...)' -> 'opytimizer/optimizers/wca.py: self._raining_process(...)'"""
+    return re.sub(r'^([^:]+):\d+:', r'\1:', text)
+
+
+def check_programs(ctx, meta, imports, fn, alarm_expr, what, theorem, only=None):
+    """Obligation per optimizer `fn prog_X = true`.  For a failing program the run monitor is focused on that optimizer
+    to find a concrete failing input on the real implementation; if it finds none, every alarm of the analysis is
+    reported on its own, keyed by the source text of the alarmed statement (so that a recorded known finding
+    covers exactly that statement and nothing else).  -> list of failing optimizers"""
+    vd = verdicts(ctx, imports, fn, name='verdicts_' + re.sub(r'\W', '_', fn)[:40])
     failed = []
     if vd is None:
         return failed
     for o in OPTS:
-        if o not in meta:
+        if o not in meta or (only is not None and o not in only):
             continue
         ok = vd.get(o, False)
         ctx.oblige('%s prog_%s = true (vm_compute on the program regenerated from opytimizer/optimizers/%s.py)' % (fn, o, o.lower()), ok,
                    'the analysis raises an alarm on the regenerated program')
         if not ok:
             failed.append(o)
-    if failed and alarm_expr:
-        al = alarms(ctx, imports, alarm_expr)
-        for o in failed:
-            where = ['%s -- %s' % (loc_text(meta, o, l), why) for l, why in al.get(o, [])]
-            ctx.cov.setdefault('alarms', {})[o] = where
+    if not failed:
+        return failed
+    al = alarms(ctx, imports, alarm_expr, name='alarms_' + re.sub(r'\W', '_', fn)[:40]) if alarm_expr else {}
+    for o in failed:
+        where = [(norm_loc(loc_text(meta, o, l)), why) for l, why in al.get(o, [])] or [('%s: (no alarm location)' % o, 'check failed')]
+        ctx.cov.setdefault('alarms', {})[o] = ['%s -- %s' % w for w in where]
+        before = len(ctx.violations)
+        data = monitor_data(ctx, focus=o)
+        new_concrete = [v for v in ctx.violations[before:] if v['found_input']]
+        if not new_concrete:
+            for text, why in where:
+                ctx.report('ir-alarm:%s:%s:%s' % (fn, o, text), '%s: %s (%s); obligation %s prog_%s = true of theorem %s no longer checks'
+                           % (what, why, text, fn, o, theorem),
+                           {'theorem': theorem, 'obligation': '%s prog_%s = true' % (fn, o), 'alarm_at': text, 'reason': why,
+                            'searched': 'run monitor focused on %s: %s configurations, no concrete failing input' %
+                                        (o, (data.get('coverage') or {}).get('configurations'))},
+                           found_input=False)
+        ctx.explain('%s prog_%s' % (fn, o))
     return failed
+
+
+def monitor_data(ctx, focus=None):
+    from props import _srun
+    data = _srun.monitor(ctx, ctx.pid, focus=focus)
+    _srun.report_all(ctx, ctx.pid, data['records'])
+    return data
+
+
+def translation_failures(ctx, errors):
+    """A program T2 could not translate: focus the run monitor on it; whatever it finds is the replay, otherwise the
+    broken translation obligation itself is reported by ctx.finish (no-failing-input-found)."""
+    for e in errors:
+        monitor_data(ctx, focus=e['item'])
